@@ -211,6 +211,24 @@ Theorem C17_printed_stem_is_class_stem : forall c mode g ins d sh,
 Proof. exact printed_stem_is_class_stem. Qed.
 Print Assumptions C17_printed_stem_is_class_stem.
 
+(** composed with [C17_stem_longest] / [C17_stem_none]: on [C17_dom] the header carries the
+    longest admissible stem of the class's instances, and carries none only if none exists *)
+Theorem C17_printed_stem_longest : forall c mode g ins d sh,
+  run_decor_data c true mode g = Some (ins, d) ->
+  (exists i, is_instance ins (sh_class sh) i) ->
+  C17_dom (instances_of ins (sh_class sh)) ->
+  (exists s, min_iri_text {| d_dmi := true; d_mode := mode; d_inverse := r_inverse c |} d sh =
+             inl (c17d_stem_pre ++ s ++ c17d_stem_post) /\ is_longest s (instances_of ins (sh_class sh))) \/
+  (min_iri_text {| d_dmi := true; d_mode := mode; d_inverse := r_inverse c |} d sh = inl [] /\
+   forall s, ~ admissible s (instances_of ins (sh_class sh))).
+Proof.
+  intros c mode g ins d sh H Hi Hd. rewrite (printed_stem_is_class_stem _ _ _ _ _ _ H Hi).
+  destruct (stem (instances_of ins (sh_class sh))) as [s|] eqn:E.
+  - left. exists s. split; [reflexivity | exact (stem_some _ _ Hd E)].
+  - right. split; [reflexivity | exact (stem_none _ Hd E)].
+Qed.
+Print Assumptions C17_printed_stem_longest.
+
 (** the example printed after the closing brace is an instance of the shape's class
     (rendered as a prefixed name or between angle brackets) *)
 Theorem C17_printed_example_from_data : forall c dmi mode g ins d z sh ex,
